@@ -149,6 +149,12 @@ Proof.
   induction a as [|x a IH]; [reflexivity|]. simpl. f_equal. rewrite <- seq_shift, map_map. exact IH.
 Qed.
 
+Lemma nth_map_seq (g : nat -> R) n k : (k < n)%nat -> nth k (map g (seq O n)) 0 = g k.
+Proof.
+  intros H. rewrite (nth_indep _ 0 (g O)) by (now rewrite map_length, seq_length).
+  rewrite map_nth, seq_nth by lia. reflexivity.
+Qed.
+
 Lemma vecmat_nth d v J j : (j < d)%nat ->
   nth j (vecmat RO d v J) 0 = rsum (map2 (fun vk row => vk * nth j row 0) v J).
 Proof.
@@ -178,8 +184,8 @@ Definition logP (w S : list R) : R := dot RO S (map ln w) - lnZ w + cst S.
 Definition klcost (data : list (list R)) (th : list R) : R :=
   kl_eval RO (map (logP (wts th)) data) (INR (length data)).
 
-(* the score identity  d/dtheta_j log Z = sum_k <n_k>/w_k dw_k/dtheta_j  along coordinate lines *)
-Definition score_identity : Prop := forall th j, (j < length th)%nat ->
+(* the score identity  d/dtheta_j log Z = sum_k <n_k>/w_k dw_k/dtheta_j  at the point th, coordinate j *)
+Definition score_at (th : list R) (j : nat) : Prop :=
   is_derive (fun x => lnZ (wts (upd th j x))) (nth j th 0)
             (nth j (vecmat RO (length th) (map2 Rdiv (nbar (wts th)) (wts th)) (jac th)) 0).
 
@@ -210,13 +216,13 @@ Qed.
 Lemma dot_ln_wts th S : length S = m ->
   dot RO S (map ln (wts th)) = rsum (map (fun k => nth k S 0 * - dot RO (nth k F []) th) (seq O m)).
 Proof.
-  intros HS. unfold dot. rewrite (map2_seq _ 0 0) by (rewrite map_length, wts_length; lia).
-  rewrite HS. apply rsum_map_ext. intros k Hk. apply in_seq in Hk. f_equal.
-  Show. rewrite (nth_indep _ 0 (ln 0)) by (rewrite map_length, wts_length; lia).
+  intros HS. unfold dot at 1. rewrite (map2_seq _ 0 0) by (rewrite map_length, wts_length; lia).
+  rewrite HS. apply rsum_map_ext. intros k Hk. apply in_seq in Hk. cbn [kmul RO]. f_equal.
+  rewrite (nth_indep _ 0 (ln 0)) by (rewrite map_length, wts_length; lia).
   rewrite map_nth. unfold wts. rewrite weightsR_nth by (fold m; lia). apply ln_exp.
 Qed.
 
-Lemma logP_deriv (Hscore : score_identity) th j S : (j < length th)%nat -> length S = m -> length (nbar (wts th)) = m ->
+Lemma logP_deriv th j S (Hscore : score_at th j) : (j < length th)%nat -> length S = m -> length (nbar (wts th)) = m ->
   is_derive (fun x => logP (wts (upd th j x)) S) (nth j th 0)
     (rsum (map (fun k => - (nth k S 0 * nth j (nth k F []) 0)) (seq O m))
      - rsum (map (fun k => - (nth k (nbar (wts th)) 0 * nth j (nth k F []) 0)) (seq O m))).
@@ -231,7 +237,7 @@ Proof.
     with (rsum (map (fun k => - (nth k S 0 * nth j (nth k F []) 0)) (seq O m))
           - nth j (vecmat RO (length th) (map2 Rdiv (nbar (wts th)) (wts th)) (jac th)) 0 + 0) by ring.
   apply (@is_derive_plus R_AbsRing R_NormedModule); [|apply (@is_derive_const R_AbsRing R_NormedModule)].
-  apply (@is_derive_minus R_AbsRing R_NormedModule); [|apply Hscore; exact Hj].
+  apply (@is_derive_minus R_AbsRing R_NormedModule); [|exact Hscore].
   apply is_derive_rsum. intros k _. auto_derive; [exact I|]. ring.
 Qed.
 
@@ -243,8 +249,8 @@ Proof.
   rewrite (map_nth (fun k0 => rsum (map (fun S => nth k0 S 0) data) / T)), seq_nth by lia. reflexivity.
 Qed.
 
-Theorem kl_chain (Hscore : score_identity) data th j :
-  (j < length th)%nat -> data <> [] -> Forall (fun S => length S = m) data -> length (nbar (wts th)) = m ->
+Theorem kl_chain data th j (Hscore : score_at th j) :
+  (j < length th)%nat -> data <> [] -> List.Forall (fun S => length S = m) data -> length (nbar (wts th)) = m ->
   is_derive (fun x => klcost data (upd th j x)) (nth j th 0)
             (nth j (kl_grad RO (length th) (nbar (wts th)) (col_mean RO m (INR (length data)) data) (wts th) (jac th)) 0).
 Proof.
@@ -252,17 +258,17 @@ Proof.
   set (T := INR (length data)).
   assert (HT : T <> 0). { unfold T. apply not_0_INR. destruct data; [congruence|simpl; lia]. }
   set (b := fun k => nth j (nth k F []) 0).
-  set (nb := nbar (wts th)).
+  set (nb := nbar (wts th)) in *.
   set (Z' := rsum (map (fun k => - (nth k nb 0 * b k)) (seq O m))).
   set (dS := fun S : list R => rsum (map (fun k => - (nth k S 0 * b k)) (seq O m)) - Z').
   assert (Hd : is_derive (fun x => klcost data (upd th j x)) (nth j th 0) (- rsum (map dS data) / T)).
   { unfold klcost, kl_eval. simpl kopp; simpl kdiv. fold T.
-    apply (is_derive_ext (fun x => (-1 / T) * rsum (map (fun S => logP (wts (upd th j x)) S) data))).
-    { intros x. field. exact HT. }
+    apply (is_derive_ext (fun x => (-1 / T) * rsum (map (logP (wts (upd th j x))) data))).
+    { intros x. match goal with |- @eq _ ?a ?b => change (@eq R a b) end. field. exact HT. }
     replace (- rsum (map dS data) / T) with ((-1 / T) * rsum (map dS data)) by (field; exact HT).
-    apply (@is_derive_scal R_AbsRing).
+    apply is_derive_scal.
     apply is_derive_rsum. intros S HS. apply logP_deriv; auto.
-    rewrite Forall_forall in Hdata. apply Hdata, HS. }
+    rewrite List.Forall_forall in Hdata. apply Hdata, HS. }
   replace (nth j (kl_grad RO (length th) nb (col_mean RO m T data) (wts th) (jac th)) 0)
     with (- rsum (map dS data) / T); [exact Hd|].
   unfold kl_grad.
@@ -272,14 +278,12 @@ Proof.
   transitivity (rsum (map (fun k => - ((nth k nb 0 - rsum (map (fun S => nth k S 0) data) / T) * b k)) (seq O m))).
   2:{ apply rsum_map_ext. intros k Hk. apply in_seq in Hk. f_equal. f_equal.
       rewrite (map2_seq _ 0 0) by (fold nb; lia). fold nb. rewrite Hn.
-      rewrite (nth_indep _ 0 (nth O nb 0 - nth O (col_mean RO m T data) 0)) by (rewrite map_length, seq_length; lia).
-      rewrite (map_nth (fun k0 => nth k0 nb 0 - nth k0 (col_mean RO m T data) 0)), seq_nth by lia. cbn [Nat.add].
-      now rewrite col_mean_nth by lia. }
+      rewrite nth_map_seq by lia. cbn [ksub RO]. now rewrite col_mean_nth by lia. }
   (* left-hand side *)
   unfold dS.
   replace (rsum (map (fun S => rsum (map (fun k => - (nth k S 0 * b k)) (seq O m)) - Z') data))
     with (rsum (map (fun S => rsum (map (fun k => - (nth k S 0 * b k)) (seq O m))) data) + - (T * Z')).
-  2:{ rewrite <- (rsum_map_const Z' data). fold T.
+  2:{ unfold T. rewrite <- (rsum_map_const Z' data).
       replace (- rsum (map (fun _ => Z') data)) with (rsum (map (fun _ : list R => -1 * Z') data)) by (rewrite rsum_map_scal; ring).
       rewrite <- rsum_map_plus. apply rsum_map_ext. intros; ring. }
   rewrite (rsum_swap (fun S k => - (nth k S 0 * b k)) data (seq O m)).
@@ -294,4 +298,266 @@ Proof.
   2:{ rewrite <- rsum_map_scal. apply rsum_map_ext. intros; ring. }
   field. exact HT.
 Qed.
+(* ---------- T3: Stochastic.grad is the derivative of Stochastic.evaluate on a fixed sample set ---- *)
+Variable lnZ0 : R.                    (* log of the normalisation of the initial matrix *)
+(* sqrt(det(1 - O(A(theta))) / det(1 - O(A))) = Z0 / Z(w) *)
+Definition detratio (w : list R) : R := exp (lnZ0 - lnZ w).
+Definition hrep (th : list R) (hs : R * list nat) : R := h_reparam RO (fst hs) (detratio (wts th)) (wts th) (snd hs).
+(* Stochastic.evaluate / Stochastic.grad on stored samples, each given as (h(s), s) *)
+Definition stcost (samples : list (R * list nat)) (th : list R) : R :=
+  scal_mean RO (INR (length samples)) (map (hrep th) samples).
+Definition stgrad (samples : list (R * list nat)) (th : list R) : list R :=
+  vec_mean RO (length th) (INR (length samples))
+    (map (fun hs => grad_one RO (length th) (hrep th hs) (map INR (snd hs)) (nbar (wts th)) (wts th) (jac th)) samples).
+
+Lemma kpow_exp a n : kpow RO (exp a) n = exp (INR n * a).
+Proof.
+  induction n as [|n IH].
+  - simpl. now rewrite Rmult_0_l, exp_0.
+  - change (kpow RO (exp a) (S n)) with (exp a * kpow RO (exp a) n). rewrite IH, <- exp_plus, S_INR. f_equal. ring.
+Qed.
+
+Lemma kprod_pow_exp (args : list R) (s : list nat) :
+  kprod RO (map2 (kpow RO) (map exp args) s) = exp (dot RO (map INR s) args).
+Proof.
+  revert s; induction args as [|a args IH]; intros [|n s].
+  - simpl. unfold dot, map2. simpl. now rewrite exp_0.
+  - simpl. unfold dot, map2. simpl. now rewrite exp_0.
+  - simpl. unfold dot, map2. simpl. now rewrite exp_0.
+  - change (kprod RO (map2 (kpow RO) (map exp (a :: args)) (n :: s)))
+      with (kpow RO (exp a) n * kprod RO (map2 (kpow RO) (map exp args) s)).
+    change (dot RO (map INR (n :: s)) (a :: args)) with (INR n * a + dot RO (map INR s) args).
+    now rewrite IH, kpow_exp, exp_plus.
+Qed.
+
+Lemma dot_args th (v : list R) : length v = m ->
+  dot RO v (exp_args RO F th) = rsum (map (fun k => nth k v 0 * - dot RO (nth k F []) th) (seq O m)).
+Proof.
+  intros Hv. unfold dot at 1. rewrite (map2_seq _ 0 0) by (unfold exp_args; rewrite map_length; fold m; lia).
+  rewrite Hv. apply rsum_map_ext. intros k Hk. apply in_seq in Hk. cbn [kmul RO]. f_equal. apply exp_args_nth.
+Qed.
+
+Lemma hrep_deriv th j hs (Hscore : score_at th j) : (j < length th)%nat -> length (snd hs) = m -> length (nbar (wts th)) = m ->
+  is_derive (fun x => hrep (upd th j x) hs) (nth j th 0)
+    (hrep th hs * rsum (map (fun k => - ((INR (nth k (snd hs) O) - nth k (nbar (wts th)) 0) * nth j (nth k F []) 0)) (seq O m))).
+Proof.
+  destruct hs as [h s]. simpl fst; simpl snd. intros Hj Hs Hn.
+  set (t := nth j th 0).
+  set (Z' := nth j (vecmat RO (length th) (map2 Rdiv (nbar (wts th)) (wts th)) (jac th)) 0).
+  set (u2 := fun x => rsum (map (fun k => INR (nth k s O) * - (dot RO (nth k F []) th + nth j (nth k F []) 0 * (x - t))) (seq O m))).
+  assert (Hform : forall th', hrep th' (h, s) = h * exp ((lnZ0 - lnZ (wts th')) + dot RO (map INR s) (exp_args RO F th'))).
+  { intros th'. unfold hrep, h_reparam, detratio. simpl fst; simpl snd. cbn [kmul RO].
+    unfold wts at 2, weightsR. rewrite kprod_pow_exp, exp_plus. ring. }
+  assert (Hu2 : forall x, dot RO (map INR s) (exp_args RO F (upd th j x)) = u2 x).
+  { intros x. rewrite dot_args by (now rewrite map_length). unfold u2. apply rsum_map_ext. intros k Hk. apply in_seq in Hk.
+    rewrite dot_upd by exact Hj. fold t. f_equal.
+    rewrite (nth_indep _ 0 (INR O)) by (rewrite map_length; lia). now rewrite map_nth. }
+  assert (Hu2' : is_derive u2 t (rsum (map (fun k => - (INR (nth k s O) * nth j (nth k F []) 0)) (seq O m)))).
+  { unfold u2. apply is_derive_rsum. intros k _.
+    set (sk := INR (nth k s O)). set (a := dot RO (nth k F []) th). set (bb := nth j (nth k F []) 0).
+    auto_derive; [exact I|]. ring. }
+  assert (Hu1' : is_derive (fun x => lnZ0 - lnZ (wts (upd th j x))) t (- Z')).
+  { replace (- Z') with (0 - Z') by ring.
+    apply (@is_derive_minus R_AbsRing R_NormedModule); [apply (@is_derive_const R_AbsRing R_NormedModule)|].
+    exact Hscore. }
+  apply (is_derive_ext (fun x => h * exp ((lnZ0 - lnZ (wts (upd th j x))) + u2 x))).
+  { intros x. now rewrite Hform, Hu2. }
+  rewrite Hform.
+  replace (dot RO (map INR s) (exp_args RO F th)) with (u2 t).
+  2:{ rewrite <- Hu2. unfold t. now rewrite upd_self. }
+  replace (lnZ (wts th)) with (lnZ (wts (upd th j t))) by (unfold t; now rewrite upd_self).
+  set (u1 := fun x => lnZ0 - lnZ (wts (upd th j x))) in *.
+  replace (h * exp (u1 t + u2 t) * _)
+    with (h * ((- Z' + rsum (map (fun k => - (INR (nth k s O) * nth j (nth k F []) 0)) (seq O m))) * exp (u1 t + u2 t))).
+  2:{ unfold Z'. rewrite (vdivw_jac th (nbar (wts th)) j Hj Hn).
+      replace (- rsum (map (fun k => - (nth k (nbar (wts th)) 0 * nth j (nth k F []) 0)) (seq O m)))
+        with (rsum (map (fun k => -1 * - (nth k (nbar (wts th)) 0 * nth j (nth k F []) 0)) (seq O m))) by (rewrite rsum_map_scal; ring).
+      rewrite <- rsum_map_plus.
+      replace (rsum (map (fun k => - ((INR (nth k s O) - nth k (nbar (wts th)) 0) * nth j (nth k F []) 0)) (seq O m)))
+        with (rsum (map (fun a => -1 * - (nth a (nbar (wts th)) 0 * nth j (nth a F []) 0) + - (INR (nth a s O) * nth j (nth a F []) 0)) (seq O m))).
+      - ring.
+      - apply rsum_map_ext. intros; ring. }
+  apply is_derive_scal.
+  apply (is_derive_comp exp (fun x => u1 x + u2 x)).
+  - apply is_derive_exp.
+  - apply (@is_derive_plus R_AbsRing R_NormedModule); assumption.
+Qed.
+
+Lemma map_scal_div c v w : map (fun q => c * q) (map2 Rdiv v w) = map2 Rdiv (map (fun q => c * q) v) w.
+Proof.
+  unfold map2. revert w; induction v as [|a v IH]; intros [|b w]; simpl; try reflexivity.
+  f_equal; [unfold Rdiv; ring|apply IH].
+Qed.
+
+Lemma grad_one_nth th j c (sv : list R) : (j < length th)%nat -> length sv = m -> length (nbar (wts th)) = m ->
+  nth j (grad_one RO (length th) c sv (nbar (wts th)) (wts th) (jac th)) 0
+  = c * rsum (map (fun k => - ((nth k sv 0 - nth k (nbar (wts th)) 0) * nth j (nth k F []) 0)) (seq O m)).
+Proof.
+  intros Hj Hs Hn. unfold grad_one. cbn [kmul RO kdiv RO]. rewrite map_scal_div.
+  assert (Hl : length (map2 (ksub RO) sv (nbar (wts th))) = m) by (unfold map2; rewrite map_length, combine_length; lia).
+  rewrite vdivw_jac by (rewrite ?map_length; auto).
+  rewrite <- rsum_map_scal. apply rsum_map_ext. intros k Hk. apply in_seq in Hk.
+  rewrite (nth_indep _ 0 (c * 0)) by (rewrite map_length; lia).
+  rewrite (map_nth (fun q => c * q)).
+  rewrite (map2_seq _ 0 0) by lia. rewrite Hs, nth_map_seq by lia. cbn [ksub RO]. ring.
+Qed.
+
+Theorem stochastic_chain samples th j (Hscore : score_at th j) :
+  (j < length th)%nat -> samples <> [] -> List.Forall (fun hs => length (snd hs) = m) samples -> length (nbar (wts th)) = m ->
+  is_derive (fun x => stcost samples (upd th j x)) (nth j th 0) (nth j (stgrad samples th) 0).
+Proof.
+  intros Hj Hne Hall Hn.
+  set (N := INR (length samples)).
+  assert (HN : N <> 0). { unfold N. apply not_0_INR. destruct samples; [congruence|simpl; lia]. }
+  set (G := fun hs : R * list nat => hrep th hs * rsum (map (fun k => - ((INR (nth k (snd hs) O) - nth k (nbar (wts th)) 0) * nth j (nth k F []) 0)) (seq O m))).
+  replace (nth j (stgrad samples th) 0) with ((1 / N) * rsum (map G samples)).
+  - unfold stcost, scal_mean. cbn [kdiv RO]. fold N.
+    apply (is_derive_ext (fun x => (1 / N) * rsum (map (hrep (upd th j x)) samples))).
+    { intros x. match goal with |- @eq _ ?a ?b => change (@eq R a b) end. field. exact HN. }
+    apply is_derive_scal. apply is_derive_rsum. intros hs Hin. apply hrep_deriv; auto.
+    rewrite List.Forall_forall in Hall. apply Hall, Hin.
+  - unfold stgrad, vec_mean. fold N. rewrite nth_map_seq by exact Hj. cbn [kdiv k0 RO].
+    rewrite map_map.
+    replace (rsum (map (fun x => nth j (grad_one RO (length th) (hrep th x) (map INR (snd x)) (nbar (wts th)) (wts th) (jac th)) 0) samples))
+      with (rsum (map G samples)); [match goal with |- @eq _ ?a ?b => change (@eq R a b) end; field; exact HN|].
+    apply rsum_map_ext. intros hs Hin. unfold G.
+    rewrite List.Forall_forall in Hall.
+    rewrite grad_one_nth by (rewrite ?map_length; auto).
+    f_equal. apply rsum_map_ext. intros k Hk. apply in_seq in Hk.
+    rewrite (nth_indep (map INR (snd hs)) 0 (INR O)) by (rewrite map_length, (Hall hs Hin); lia). now rewrite map_nth.
+Qed.
 End Chain.
+
+(* ---------- the score identity holds for product states (the hypothesis is satisfiable) ---------- *)
+(* A = diag(a): independent single-mode squeezed states, Z(w) = prod_k (1 - (w_k a_k)^2)^(-1/2),
+   <n_k> = (w_k a_k)^2 / (1 - (w_k a_k)^2) *)
+Definition lnZ_prod (a w : list R) : R := rsum (map2 (fun ak wk => - / 2 * ln (1 - (wk * ak) * (wk * ak))) a w).
+Definition nbar_prod (a w : list R) : list R := map2 (fun ak wk => (wk * ak) * (wk * ak) / (1 - (wk * ak) * (wk * ak))) a w.
+
+Lemma score_product F a th j : length a = length F -> (j < length th)%nat ->
+  (forall k, (k < length F)%nat -> (nth k (weightsR F th) 0 * nth k a 0) * (nth k (weightsR F th) 0 * nth k a 0) < 1) ->
+  score_at F (lnZ_prod a) (nbar_prod a) th j.
+Proof.
+  intros Ha Hj Hlt. unfold score_at.
+  set (m := length F).
+  assert (Hn : length (nbar_prod a (wts F th)) = m).
+  { unfold nbar_prod, map2. rewrite map_length, combine_length, wts_length. fold m. lia. }
+  rewrite (vdivw_jac F th (nbar_prod a (wts F th)) j Hj Hn). fold m.
+  set (t := nth j th 0).
+  apply (is_derive_ext (fun x => rsum (map (fun k =>
+      - / 2 * ln (1 - (exp (- (dot RO (nth k F []) th + nth j (nth k F []) 0 * (x - t))) * nth k a 0)
+                     * (exp (- (dot RO (nth k F []) th + nth j (nth k F []) 0 * (x - t))) * nth k a 0))) (seq O m)))).
+  { intros x. unfold lnZ_prod. rewrite (map2_seq _ 0 0) by (rewrite wts_length; fold m; lia). rewrite Ha. fold m.
+    apply rsum_map_ext. intros k Hk. apply in_seq in Hk. unfold wts.
+    rewrite weightsR_nth by (fold m; lia). now rewrite dot_upd by exact Hj. }
+  apply is_derive_rsum. intros k Hk. apply in_seq in Hk.
+  assert (Hw : nth k (wts F th) 0 = exp (- dot RO (nth k F []) th)) by (unfold wts; apply weightsR_nth; fold m; lia).
+  assert (Hnb : nth k (nbar_prod a (wts F th)) 0
+                = (nth k (wts F th) 0 * nth k a 0) * (nth k (wts F th) 0 * nth k a 0) / (1 - (nth k (wts F th) 0 * nth k a 0) * (nth k (wts F th) 0 * nth k a 0))).
+  { unfold nbar_prod. rewrite (map2_seq _ 0 0) by (rewrite wts_length; fold m; lia). rewrite Ha. fold m.
+    now rewrite nth_map_seq by lia. }
+  rewrite Hnb, Hw. specialize (Hlt k ltac:(fold m; lia)). fold (wts F th) in Hlt. rewrite Hw in Hlt.
+  set (al := dot RO (nth k F []) th) in *. set (bb := nth j (nth k F []) 0). set (ak := nth k a 0) in *.
+  auto_derive.
+  - replace (al + bb * (t + - t)) with al by ring. lra.
+  - replace (al + bb * (t + - t)) with al by ring. set (E := exp (- al)) in *. field. lra.
+Qed.
+
+(* ---------- T4: TimeEvolution is a product of phase rotations and conserves photon numbers ---------- *)
+Lemma rgate_photons k c s (st : gstate (K := R)) i : c * c + s * s = 1 ->
+  nmat (rgate RO k (c, s) st) i i = nmat st i i.
+Proof.
+  intros H. unfold rgate; simpl. destruct (Nat.eqb i k); [|reflexivity].
+  destruct (nmat st i i) as [xr xi]. unfold cmul, cconj; simpl. f_equal.
+  - replace xr with ((c * c + s * s) * xr) at 3 by (rewrite H; ring). ring.
+  - replace xi with ((c * c + s * s) * xi) at 3 by (rewrite H; ring). ring.
+Qed.
+
+Lemma rgate_amp2 k c s (st : gstate (K := R)) i : c * c + s * s = 1 -> amp2 RO (rgate RO k (c, s) st) i = amp2 RO st i.
+Proof.
+  intros H. unfold amp2, rgate; simpl. destruct (Nat.eqb i k); [|reflexivity].
+  destruct (amp st i) as [xr xi]. unfold cmul; simpl.
+  replace (xr * xr + xi * xi) with ((c * c + s * s) * (xr * xr + xi * xi)) by (rewrite H; ring). ring.
+Qed.
+
+Lemma cs1 x : cos x * cos x + sin x * sin x = 1.
+Proof. pose proof (sin2_cos2 x) as H. unfold Rsqr in H. lra. Qed.
+
+Lemma run_rgates_conserve cmds : forall (st : gstate (K := R)) i,
+  nmat (run_rgates RO cos sin cmds st) i i = nmat st i i /\ amp2 RO (run_rgates RO cos sin cmds st) i = amp2 RO st i.
+Proof.
+  induction cmds as [|[k th] cmds IH]; intros st i; [split; reflexivity|].
+  unfold run_rgates in *. simpl fold_left. destruct (IH (rgate RO k (cos th, sin th) st) i) as [H1 H2].
+  rewrite H1, H2. split; [apply rgate_photons, cs1|apply rgate_amp2, cs1].
+Qed.
+
+Lemma time_evolution_conserves hundred c femto twopi w t (st : gstate (K := R)) i :
+  photons (run_rgates RO cos sin (time_evolution RO hundred c femto twopi w t) st) i = photons st i
+  /\ amp2 RO (run_rgates RO cos sin (time_evolution RO hundred c femto twopi w t) st) i = amp2 RO st i.
+Proof.
+  destruct (run_rgates_conserve (time_evolution RO hundred c femto twopi w t) st i) as [H1 H2].
+  unfold photons. now rewrite H1, H2.
+Qed.
+
+Lemma time_evolution_modes hundred c femto twopi w t :
+  map fst (time_evolution RO hundred c femto twopi w t) = seq O (length w).
+Proof.
+  unfold time_evolution, te_thetas. set (f := fun wi : R => _).
+  assert (H : forall (l1 : list nat) (l2 : list R), length l1 = length l2 -> map fst (combine l1 l2) = l1).
+  { induction l1; intros [|y l2] Hl; simpl in *; try discriminate; auto. f_equal. apply IHl1. lia. }
+  apply H. now rewrite seq_length, map_length.
+Qed.
+
+Lemma te_thetas_add hundred c femto twopi w t1 t2 :
+  te_thetas RO hundred c femto twopi w (t1 + t2)
+  = map2 Rplus (te_thetas RO hundred c femto twopi w t1) (te_thetas RO hundred c femto twopi w t2).
+Proof.
+  unfold te_thetas, map2. induction w as [|a w IH]; simpl; [reflexivity|]. f_equal; [ring|exact IH].
+Qed.
+
+Lemma te_thetas_zero hundred c femto twopi w : te_thetas RO hundred c femto twopi w 0 = map (fun _ => 0) w.
+Proof. unfold te_thetas. apply map_ext. intros a. simpl. ring. Qed.
+
+(* ---------- vibronic: the position gain applied by VibronicTransition(gbs_params(...)) ------------- *)
+(* gbs_params returns r = np.log(s) for each singular value s of J; VibronicTransition applies Sgate(r), whose action
+   on the position quadrature in Strawberry Fields is x -> exp(-r) x *)
+Definition vib_r (s : R) : R := ln s.
+Definition sgate_x_gain (r : R) : R := exp (- r).
+
+Lemma vib_gain_inverse s : 0 < s -> sgate_x_gain (vib_r s) = / s.
+Proof. intros H. unfold sgate_x_gain, vib_r. rewrite exp_Ropp, exp_ln by exact H. reflexivity. Qed.
+
+Lemma vib_gain_refuted : exists s, 0 < s /\ sgate_x_gain (vib_r s) <> s.
+Proof. exists 2. split; [lra|]. rewrite vib_gain_inverse by lra. lra. Qed.
+
+Lemma vib_gain_only_trivial s : 0 < s -> sgate_x_gain (vib_r s) = s -> s = 1.
+Proof.
+  intros H. rewrite vib_gain_inverse by exact H. intros E.
+  assert (s * s = 1) by (rewrite <- E at 1; field; lra). nra.
+Qed.
+
+(* ---------- discrete bookkeeping ------------------------------------------------------------- *)
+Lemma orbit_ok_iff orbit modes : orbit_ok orbit modes = true <-> (length orbit <= modes)%nat.
+Proof.
+  unfold orbit_ok, orbit_click. rewrite Nat.eqb_eq, app_length, repeat_length. lia.
+Qed.
+
+Lemma orbit_refuted : exists orbit modes, fold_right plus O orbit = 4%nat /\ orbit_ok orbit modes = false.
+Proof. exists [1;1;1;1]%nat, 3%nat. split; reflexivity. Qed.
+
+Lemma existsb_negb_forallb z : existsb negb z = negb (forallb (fun b => b) z).
+Proof. induction z as [|[|] z IH]; simpl; auto. Qed.
+Lemma existsb_id_forallb z : existsb (fun b => b) z = negb (forallb negb z).
+Proof. induction z as [|[|] z IH]; simpl; auto. Qed.
+
+Lemma sample_len_iff z : z <> [] ->
+  (sample_len z = 2 * length z)%nat <-> (forallb (fun b => b) z = true \/ forallb negb z = true).
+Proof.
+  intros Hz. assert (0 < length z)%nat by (destruct z; [congruence|simpl; lia]).
+  unfold sample_len. rewrite existsb_negb_forallb, existsb_id_forallb.
+  destruct (forallb (fun b => b) z) eqn:E1, (forallb negb z) eqn:E2; simpl; split; intros; auto; try lia.
+  - destruct H0; discriminate.
+Qed.
+
+Lemma sample_len_refuted : exists z, sample_len z <> (2 * length z)%nat.
+Proof. exists [true; false]. vm_compute. discriminate. Qed.
